@@ -38,6 +38,7 @@ GEN_CONFIGS = {
     "quick": ["MC_Alias_q3.cfg", "MC_Alias_g3.cfg"],
     "thorough": ["MC_Alias_q3.cfg", "MC_Alias_g3.cfg", "MC_Alias_g3b.cfg", "MC_Alias_n4.cfg", "MC_Alias_t3.cfg"],
 }
+SPELLINGS = (0, 1, 2)
 RANDOM_N = {"quick": 8000, "thorough": 80000}
 E2E_N = {"quick": 1500, "thorough": 15000}
 TLC_TIMEOUT = {"quick": 1500, "thorough": 6000}
@@ -55,7 +56,7 @@ def _tb_text(tb):
 
 
 def _key(kind, rec):
-    return {"kind": kind, "class": rec.get("class", ""), "table": _tb_text(rec.get("tb")),
+    return {"kind": kind, "class": rec.get("class", ""), "spell": rec.get("spell", 0), "table": _tb_text(rec.get("tb")),
             "line": " ".join(rec.get("line", []))}
 
 
@@ -178,6 +179,9 @@ def run(tier):
         "where a token checked because of a blank-ending value is replaced by an empty value, both readings of "
         "'the next token' are allowed",
         "global aliases are injected through the Glossary API (the alias built-in cannot define them)",
+        "the spec's tokens are rendered under 3 spellings (ASCII; alias names outside the portable alias-name set such "
+        "as a.b c+d .. and non-ASCII names; words with multi-byte characters): the rules of XCU 2.3.1 do not depend on "
+        "the spelling of an unquoted literal word",
         "TLC (tla2tools) and the JSON community module are trusted",
     ]
 
@@ -224,19 +228,37 @@ def run(tier):
         transitions += r.generated
         for a, c in r.coverage.items():
             cov_actions[a] = cov_actions.get(a, 0) + c
-        bad = os.path.join(wd, cfg + ".bad.ndjson")
-        out, hang = _harness(["replay", "--in", path, "--out", bad], f"replay {cfg}")
+        # every case is replayed under each spelling of the names and words
+        # (harness/c17/src/model.rs: ASCII; alias names outside the portable
+        # set and multi-byte words, two variants)
+        s = None
+        nbad = 0
+        hang = None
+        for sp in SPELLINGS:
+            bad = os.path.join(wd, f"{cfg}.bad{sp}.ndjson")
+            out, hang = _harness(["replay", "--spell", sp, "--in", path, "--out", bad], f"replay {cfg} spelling {sp}")
+            if hang is not None:
+                break
+            s1 = _summary(out, f"replay {cfg}")
+            nb = _report_bad(rep, "replay", bad)
+            nbad += nb
+            if s1.get("stopped_early"):
+                vlib.log(f"[p4] {cfg} spelling {sp}: replay stopped after {nb} failing cases; the rest was not replayed")
+            if nb == 0:
+                os.remove(bad)
+            if s is None:
+                s = s1
+            else:
+                for k in ("cases", "unspecified_skipped", "agree_parsed", "agree_syntax_error", "nontrivial", "ambiguous",
+                          "syntax_error_cause_drift"):
+                    s[k] = s.get(k, 0) + s1.get(k, 0)
         if hang is not None:
             rep.violation({"kind": "replay", "class": "hang-timeout", "input": hang.get("input", "")},
                           "parser exceeded the wall-clock limit (alias substitution does not terminate?)",
                           {"kind": "timeout", **hang})
             per_cfg[cfg] = {"states": r.distinct, "hang": True}
             continue
-        s = _summary(out, f"replay {cfg}")
-        nbad = _report_bad(rep, "replay", bad)
-        if s.get("stopped_early"):
-            vlib.log(f"[p4] {cfg}: replay stopped after {nbad} failing cases; the rest of the cases was not replayed")
-        vlib.log(f"[p4] {cfg}: {r.distinct} states ({r.wall:.1f}s); {s['cases']} (table, line) cases replayed on the real "
+        vlib.log(f"[p4] {cfg}: {r.distinct} states ({r.wall:.1f}s); {s['cases']} (table, line, spelling) cases replayed on the real "
                  f"parser: {s['agree_parsed']} parsed+equal, {s['agree_syntax_error']} both syntax errors, "
                  f"{s['unspecified_skipped']} unspecified skipped, {s['ambiguous']} with two allowed results, {nbad} BAD")
         replay_cases += s["cases"] - s["unspecified_skipped"]
@@ -251,8 +273,6 @@ def run(tier):
         if len(samples) < 6:
             samples.extend(s["samples"][:3])
         os.remove(path)
-        if nbad == 0:
-            os.remove(bad)
 
     # ---- P3: random records validated by Trace_Alias, results judged ----
     rec = os.path.join(wd, "random.rec.ndjson")
@@ -331,7 +351,7 @@ def run(tier):
         "samples": samples[:10],
         "evaluations": validated,
         "distinct_nontrivial": replay_nontrivial + js["nontrivial"] + es["agree_with_commands_run"],
-        "rule": "replay: (table, line) cases whose by-hand result differs from the line and that parse; random: same; "
+        "rule": "replay: (table, line, spelling) cases whose by-hand result differs from the line and that parse; random: same; "
                 "e2e: agreeing shell runs in which at least one command was executed",
         "exhaustive": True,
         "exhaustive_over": "all alias tables over 3 names" + (" and over 4 names" if tier == "thorough" else "") +
@@ -379,7 +399,7 @@ def replay(path):
         out, hang = _harness(["e2e", "redo", "--in", src, "--out", rec], "e2e redo")
     else:
         with open(src, "w") as f:
-            f.write(json.dumps({"tb": r["tb"], "line": r["line"]}) + "\n")
+            f.write(json.dumps({"tb": r["tb"], "line": r["line"], "spell": r.get("spell", 0)}) + "\n")
         out, hang = _harness(["observe", "--in", src, "--out", rec], "observe")
     if hang is not None:
         print(f"VIOLATION property={PID} replay={path}")
